@@ -806,6 +806,8 @@ class Accept(Suite):
             lambda v, name, cands: {'value': v, 'name': name, 'candidates': cands},
             g.weighted((1, st.none()),
                        (1, st.just({'text': '', 'expect': {'*/*': 1.0}, 'labels': ['accept:empty'], 'mutated': False})),
+                       (1, st.sampled_from([',', ', ,', ' , ,\t,', ',,', ';', ',;q=1', 'a/b,,', ',a/b']).map(
+                           lambda t: {'text': t, 'expect': {}, 'labels': ['accept:only_separators'], 'mutated': True})),
                        (14, g.mutate_some(g.accept_values(), 30))),
             g.cased('Accept'), st.lists(st.sampled_from(_TARGETS), min_size=1, max_size=4, unique=True))
 
